@@ -10,4 +10,4 @@ From Otter Require Import Base Sketch.
 Extraction "model.ml"
   Base.wrapu Base.wraps Base.satadd Base.abs64
   Sketch.spread Sketch.rehash Sketch.roundup64 Sketch.roundup32
-  Sketch.sketch0 Sketch.tbl Sketch.sample Sketch.bmask Sketch.ssize Sketch.inited Sketch.frequency Sketch.increment Sketch.reset Sketch.ensure_capacity Sketch.admit.
+  Sketch.sketch0 Sketch.tbl Sketch.sample Sketch.bmask Sketch.ssize Sketch.inited Sketch.frequency Sketch.increment Sketch.reset Sketch.ensure_capacity Sketch.accept.
